@@ -135,6 +135,17 @@ CHECKS = {
    note='Trusted: z3, exact rational reference integrals (own code), the algebraic form of the Gauss-Legendre rule (numpy delivers its rounding), symnp/symsparse, reals for doubles. '
         'Knot vectors are concrete (dyadic) and enumerated; data are symbolic. Not applicable part: the low-rank fast assembler (C++).',
    technique='symbolic execution of real Python/Cython source + z3 (polynomial identities; algebraic Gauss nodes via defining equations)'),
+ 'C03': dict(
+   category='other', design_ref='4/C03',
+   text='Hybrid bounded check: HDiscretization.assemble_matrix/assemble_functional (source exec\'d from /repo) run on the real HSpace/HMesh/MLStructure code for an enumerated '
+        'family of refinement histories (HB and THB, disparity 1/2/inf, bdspecs None/[]/faces, incl. assemble-refine-assemble sequences on one object) while the tensor-product '
+        'level matrices and vectors are symbolic (the level assembler is replaced by its contract: symbolic entries at the structural nonzeros of exactly the requested rows). '
+        'Per space z3 decides, for all level matrices at once, that entry (i,j) is the bilinear form of the two hierarchical functions on the finer of their levels '
+        '(independent level matrices), that with Galerkin-nested levels the result is I^T A_fine I for the space\'s own representation matrix, that symmetric assembly of a symmetric '
+        'matrix gives the same result, that THB = T^T HB T, and the analogous statements for functionals.',
+   note='Trusted: z3, the level-assembler contract (C01/C08), real transfer matrices (entries replaced by the dyadic rational within 1e-12), tolerance 1e-9 for symbols in [-1,1]. '
+        'The quantifier over refinement histories is by ENUMERATION inside the stated family and is not a solver verdict; the quantifier over forms/geometries/data is the solver\'s.',
+   technique='symbolic execution of real Python source on enumerated hierarchical spaces with symbolic level matrices + z3 (LRA)'),
 }
 
 NA = {
